@@ -146,16 +146,19 @@ CLAIMED.update({
 
 CLAIMED.update({
     "C12": {
-        "text": "In the model loading and matching are functions, and the ONLY nondeterminism of the crate -- the iteration order "
-                "of its hash maps -- is an explicit input `ord` of the optimiser model. Proved: switch sets without shake and matrix "
-                "never consult a hash map (optimise_order_irrelevant), an optimised rule is never optimised again (optimise_once), "
-                "maps with at most one key have one order and any order yields the same entries (amap_iter_single / amap_iter_perm); "
-                "the order-dependent known classes are refuted by two explicit orders (D16 in C01, D17, D22). The correspondence check "
-                "enumerates ALL hash orders in the model and the crate's result must be one of the model's. On the crate: repeated "
-                "optimise calls in one process and in a second process, 8-16 threads sharing one Rule, forward/reverse document "
-                "order, and a source audit for interior mutability.",
-        "note": TB + "PARTIAL: order independence of shake_1 / matrix outside D16/D17/D22 is not proved (tied by the all-orders correspondence); thread interleavings and other processes cannot be exhibited by a Gallina model and are exercised on the crate only. The theorems quantify over pure order functions (the same key list gets the same order at every call site); the runner explores call sites independently.",
-        "technique": "hash-map order as an explicit oracle in the Coq model (theorems + refutations) + all-orders differential runs + repeated/threaded runs on the crate",
+        "text": "In the model loading and matching are functions, and the only source of nondeterminism the crate had -- the "
+                "iteration order of the optimiser's maps -- is an explicit input `ord` of the optimiser model. The crate was "
+                "repaired (fix D22: ordered maps); Model/Order.v defines the order it now uses (rust_ord: Rust's Ord on the keys), "
+                "rust_ord_perm proves it a permutation, and the OPTIMISED TREES of crate and model are compared structurally for all "
+                "16 switch sets on every generated rule. Proved: switch sets without shake and matrix never consult a map "
+                "(optimise_order_irrelevant), an optimised rule is never optimised again (optimise_once), amap_iter_single / "
+                "amap_iter_perm, shake1_order_irrelevant_flat and optimise_order_irrelevant_in_scope (inside Scope.c01_scope ANY two "
+                "orders give the same verdict), crate_order_scope_sound; the order dependence that existed is kept as refutations on "
+                "the model (refuted_D16 in C01, refuted_D17, refuted_D22). On the crate: repeated optimise calls in one process and in "
+                "a second process (printed trees and verdicts must be identical -- nothing is suppressed any more), 8-16 threads "
+                "sharing one Rule, forward/reverse document order, and a source audit for interior mutability.",
+        "note": TB + "PARTIAL by nature: thread interleavings and other processes cannot be exhibited by a Gallina model and are exercised on the crate only; the model's purity (optimise and matches are functions of rule, switches, order and document) is what the theorems state.",
+        "technique": "map order as an explicit input of the Coq model (theorems, refutations, the crate's order proved a permutation) + structural comparison of optimised trees + repeated/threaded runs on the crate",
     },
     "C14": {
         "text": "Model/Serial.v states what a Rule serialises to as a YAML value (flag, raw condition, raw identifiers in hash-map "
@@ -172,18 +175,22 @@ CLAIMED.update({
 
 CLAIMED.update({
     "C01": {
-        "text": "The five passes are modelled function by function with hash-map order as an input. Proved (three-valued, every "
-                "document): coalesce_exact_alt, rewrite_exact (under the one assumption H_strip about the regex library; fix D4), "
-                "shake0_exact_alt (for every fuel, outside the known classes D13/D14), optimise_coalesce_rewrite_exact_alt (whole "
-                "rules, the four switch sets without shake/matrix), exact_implies_verdict; C01_loaded: every condition the Pratt parser "
-                "builds and every body parse_identifier builds meets those shape hypotheses, hence loaded_rule_coalesce_rewrite "
-                "(for EVERY loadable rule the switch sets without shake/matrix keep the verdict) and loaded_body_shake0; the known classes are refuted on the "
-                "model (refuted_D13/D14/D16, D17 and D22 in C12). NOT proved: preservation by shake_1 and matrix; for these the model "
-                "is tied to the crate by the correspondence check (random and forced rules x 6 documents x all 16 switch sets, ALL "
-                "hash orders enumerated in the model) and every crate-side verdict change must be reproduced by the model AND accepted "
-                "by the executable classifier of a listed finding (D13..D21, Model/Known.v), else it is a VIOLATION.",
-        "note": TB + "PARTIAL proof: shake_1 / matrix preservation unproved. The theorems carry shape hypotheses (no_nested, cmp_leaves, sh0, shx, no_dneg) that loader-produced rules satisfy; the statements without them were refuted by the proof attempt (counterexamples kept). Known findings D13-D21 are listed in KNOWN_FINDINGS.txt with witnesses.",
-        "technique": "Coq proof for coalesce/rewrite/shake_0 + refutation witnesses; executable optimiser model with explicit hash order, differential over 16 switch sets with classifier-gated known findings",
+        "text": "The five passes are modelled function by function with the map iteration order as an input (the crate's order "
+                "since fix D22 is Model/Order.v). Proved (three-valued, every document): coalesce_exact_alt, rewrite_exact (under the "
+                "one assumption H_strip about the regex library; fix D4), shake0_exact_alt (every fuel, outside D13/D14), "
+                "shake1_exact_flat (the merging pass on nested-free trees, every fuel, every permutation order), shake_exact_flat, "
+                "exact_implies_verdict; C01_loaded: everything the loader builds meets the shape hypotheses; whole rules: "
+                "scope_sound / loaded_rule_no_matrix_flat -- for EVERY loadable rule inside the executable scope Scope.c01_scope "
+                "(matrix off; coalesce on or no quantifier over an identifier; the trees handed to shake nested-free and outside "
+                "D13/D14) the eight switch sets without matrix return and keep the verdict on every document; the known classes are "
+                "refuted on the model (refuted_D13/D14/D16; D17, D22 in C12). The runner evaluates the scope for every generated rule "
+                "and the check accepts NO verdict change inside it. Outside the scope (nested blocks under shake: D16/D29; the matrix "
+                "pass: statements in Pending/C01_matrix.v, proof in progress) the model is tied to the crate by the correspondence: "
+                "random rules, forced rules and coverage families x documents x all 16 switch sets, the OPTIMISED TREES compared "
+                "structurally, and every crate-side verdict change must be reproduced by the model AND accepted by the executable "
+                "classifier of a listed finding (D13..D21, D29; Model/Known.v), else it is a VIOLATION.",
+        "note": TB + "PARTIAL proof: preservation by shake_1 on trees with nested blocks and by the matrix pass is not proved (D16, D17, D18, D29 show it is false in general; the true statements are being proved). The first versions of several statements were refuted by the proof attempts (counterexamples kept as lemmas).",
+        "technique": "Coq proof for coalesce / rewrite / shake_0 / shake_1 (nested-free) and whole loaded rules inside an executable scope + refutation witnesses; executable optimiser model, structural comparison of optimised trees over 16 switch sets with classifier-gated known findings",
     },
     "C08": {
         "text": "quantified_list_exact proves that all(k) / of(k, n) over a list of string patterns gives, on a string field, the "
@@ -202,21 +209,23 @@ CLAIMED.update({
     "C02": {
         "text": "Model/Spec.v is a reference semantics of the rule language written from the documentation: it works from the YAML "
                 "of the rule and the document value (never from the engine's expression tree) and returns true / false / missing. "
-                "Proved: entry_refines (every scalar entry -- string / numeric pattern, number, boolean, null under a plain, not(), "
-                "int(), flt() or str() key -- gives exactly the documented result on every document), mapping_refines_simple "
-                "(a mapping is the first-non-true conjunction of its entries, nested blocks of any depth), identifier_refines_simple "
-                "(sequences of mappings are disjunctions; what all()/of() count), cond_refines (every condition the parser can "
-                "produce: and/or/not/all()/of()/casts), loaded_condition_shape, and rule_refines_simple (every loadable rule of the "
-                "fragment has, on every document, the reference's verdict; matches = true only; missing is never true). The "
-                "unrestricted statements are refuted by witnesses (D27, D30, negative thresholds). On the crate structure-first random "
-                "rules x 8 documents are compared with the extracted reference; a difference is accepted only when the engine "
-                "model reproduces the crate and a listed classifier (D10/D11, D24, D26, D27, D28, D30) accepts the rule.",
-        "note": TB + "PARTIAL proof: the refinement theorems cover identifier blocks built from scalar entries, nested blocks and "
-                "sequences of mappings; entries whose value is a LIST are covered by C07/C08's theorems for string members and by "
-                "the correspondence against the reference for the other member kinds. Array-valued fields are in the reference "
-                "and in the correspondence, not in the theorems' fragment beyond what find/solve give.",
-        "technique": "Coq proof of refinement (engine model vs documented reference semantics) by induction over YAML depth and "
-                     "condition trees + differential crate vs extracted reference with classifier-gated known findings",
+                "Proved: entry_refines_unrestricted (every scalar entry -- string / numeric pattern, number, boolean, null under a "
+                "plain, not(), int(), flt() or str() key -- gives exactly the documented result on every document; no exclusion since "
+                "fixes D27 and D30), list_entry_refines (every entry whose value is a LIST of scalars, under every key form incl. "
+                "all() and of(k, n), on every document value: the batches the loader compiles evaluate to the documented combination "
+                "of the members as written), mapping_refines_lists / identifier_refines_lists (mappings = first-non-true conjunction "
+                "in written order, nested blocks of any depth over objects and arrays of objects, sequences = disjunctions), "
+                "cond_refines (every condition the parser can produce), rule_refines_lists: EVERY loadable rule whose identifier "
+                "blocks are built from scalars, lists of scalars, nested blocks and sequences of mappings has, on every document, "
+                "exactly the reference's result; matches = true only; a missing field is never true -- outside the executable classes "
+                "of the listed findings (D10/D11, D24, D26 per document, D28, D32). On the crate structure-first random rules x 8 "
+                "documents and the coverage families are compared with the extracted reference; a difference is accepted only when "
+                "the engine model reproduces the crate and a listed classifier accepts the rule.",
+        "note": TB + "Not in the theorems' fragment: lists whose members are MAPPINGS under a key (covered by the correspondence "
+                "against the reference). The YAML-integer range hypothesis (i64 or u64) is what serde_yaml can hold.",
+        "technique": "Coq proof of refinement (engine model vs documented reference semantics): counting invariant over the "
+                     "loader's batching, induction over YAML depth and condition trees + differential crate vs extracted "
+                     "reference with classifier-gated known findings",
     },
 })
 
